@@ -310,6 +310,10 @@ def explore(ck: Check, scale: int) -> None:
                 ck.case(("positioned", kind, len(prefix), tuple(lens)), feature=f"positioned/{kind}")
                 ck.oracle_evaluations += 1
                 got = impl_iter(kind, file, lrecl)
+                # model: Recfm.Source -- the whole file and the position at which the reader is made
+                reqs.append(f"C05 {kind}@ {len(prefix)} " + (f"{lrecl} " if kind == "F" else "") + hexs(prefix + file))
+                impl.append(got)
+                inputs.append({"recfm": kind, "lens": lens, "skipped_prefix": prefix.hex()})
                 if got != show_recs(want):
                     name = {"F": "RECFM_F.record_iter", "V": "RECFM_V.record_iter", "Vrdw": "RECFM_V.rdw_iter", "VB": "RECFM_VB.record_iter"}[kind]
                     ck.fail(name, f"positioned/{kind}: the source was positioned after {len(prefix)} bytes that are no part of the dataset; the "
